@@ -1141,6 +1141,43 @@ func (e *absEnv) stdCall(fr *absFrame, name string, args []aval, depth int) (ava
 			}
 		}
 		return atuple{}, true
+	case "fmt.Sprintf", "fmt.Sprint":
+		// concrete operands only: the library's own formatting
+		var goArgs []interface{}
+		format := ""
+		rest := args
+		if base == "fmt.Sprintf" {
+			f, ok := args[0].(astr)
+			if !ok {
+				return nil, false
+			}
+			format = string(f)
+			rest = args[1:]
+		}
+		if len(rest) == 1 {
+			switch vs := rest[0].(type) {
+			case anil:
+			case avals:
+				for _, c := range vs.cells {
+					switch v := ifaceVal(e.cellVal(c)).(type) {
+					case astr:
+						goArgs = append(goArgs, string(v))
+					case aint:
+						goArgs = append(goArgs, int64(v))
+					case abool:
+						goArgs = append(goArgs, bool(v))
+					default:
+						return nil, false
+					}
+				}
+			default:
+				return nil, false
+			}
+		}
+		if base == "fmt.Sprintf" {
+			return astr(fmt.Sprintf(format, goArgs...)), true
+		}
+		return astr(fmt.Sprint(goArgs...)), true
 	case "fmt.Errorf", "errors.New":
 		// a freshly made error: some non-nil error value
 		return aiface{aptr{&aobj{name: "error made by " + base, typ: types.Typ[types.Int], f: map[string]aval{}}, ""}, types.Typ[types.Int]}, true
